@@ -17,6 +17,11 @@ import os
 import re
 import ast
 
+try:
+    unicode
+except NameError:
+    unicode = str  # py3
+
 from .application import Application
 from .static import StaticApplication
 from .render import AshesRenderFactory
